@@ -126,15 +126,16 @@ def hand_struct(name, members, typedoc=None):
     return {"name": name, "tparams": [], "typedoc": typedoc, "members": members}
 
 
-def build_new_pkg(listed, flags, star=False, extra_feats=()):
-    """package spec from the struct specs to list (in `-type` order) and the flags"""
+def build_new_pkg(listed, flags, star=False, extra_feats=(), render=None):
+    """package spec from the struct specs to list (in `-type` order) and the flags; `render`: the struct specs in the
+    order in which they are to be declared in the file (default: each listed type followed by the types it embeds)"""
     getset = "-getset" in flags
     js = "-json" in flags
     gofile = "t.go"
-    src = newgen.render_file("cs", listed)
+    src = newgen.render_file("cs", render or listed)
     if star:
         src = src.replace("package cs\n", "package cs\n\n//go:generate shoot new %s\n" % " ".join(flags + ["-type=*"]), 1)
-    by_name = {s["name"]: s for s in decl_order(listed)}
+    by_name = {s["name"]: s for s in decl_order(render or listed)}
     n = len(listed)
     feats = {"new": 1, "types-%d" % n: 1}
     for f in flags:
@@ -157,9 +158,10 @@ def build_new_pkg(listed, flags, star=False, extra_feats=()):
         return p
 
     return {"cmd": "new", "flags": list(flags), "files": {gofile: src}, "cwd": ".", "gofile": gofile,
-            "types": [s["name"] for s in listed], "all_types": [s["name"] for s in decl_order(listed)], "setup": [],
-            "model": model, "feats": feats, "star": star, "getset": getset, "json": js,
-            "embeds": {s["name"]: embeds_of(s) for s in decl_order(listed)}, "structs": by_name, "listed": listed}
+            "types": [s["name"] for s in listed], "all_types": [s["name"] for s in decl_order(render or listed)], "setup": [],
+            "model": model, "feats": feats, "star": star, "getset": getset, "json": js, "render": render,
+            "embeds": {s["name"]: embeds_of(s) for s in decl_order(render or listed)}, "structs": by_name, "listed": listed,
+            "tsexp": lambda nm: ntype_sexp(by_name[nm], gofile, getset)}
 
 
 def gen_new_pkg(rng, force=None):
@@ -212,6 +214,23 @@ def gen_new_pkg(rng, force=None):
     listed = [structs[i] for i in order]
     star = force.get("star", rng.random() < 0.35)
     return build_new_pkg(listed, flags, star)
+
+
+def deps_first_order(listed):
+    """all struct declarations reachable from `listed`, embedded types before their embedders"""
+    out, seen = [], set()
+
+    def visit(s):
+        if s["name"] in seen:
+            return
+        seen.add(s["name"])
+        for m in s["members"]:
+            if m["k"] == "e":
+                visit(m["decl"])
+        out.append(s)
+    for s in listed:
+        visit(s)
+    return out
 
 
 def hand_new_pkgs():
